@@ -3,7 +3,7 @@ import random
 
 from exv.core import Report, run_cases
 from exv.scen import flushvec_of
-from exv.sysscen import child, gen_script
+from exv.sysscen import child, gen_script, gen_race_script
 
 PID = 'C07'
 
@@ -23,6 +23,14 @@ def gen_cases(tier, seed, judge=('C07',), n=None, queries=False, longpark_in_qui
                       'latency': rng.choice((None, (0, 0.1, 1), (0, 0.1, 1, 3, 6))), 'txindex': i % 2 == 0,
                       'prefetch': rng.choice((1, 2, 100)), 'n0': rng.choice((10, 14, 20)), 'sample': i < 2, 'colls': rng.choice((0, 1)),
                       'longpark': (0.25 if i % 5 == 3 else None) if tier == 'thorough' or longpark_in_quick else None})
+    if 'C10' in judge or 'C11' in judge:
+        # reads in flight while blocks are undone: queries right before a chain change, read jobs held at their end
+        for j in range(24 if tier == 'quick' else 300):
+            nclients, nscripts = 2, 5
+            cases.append({'seed': rng.randrange(1 << 30), 'nclients': nclients, 'nscripts': nscripts, 'judge': list(judge),
+                          'script': gen_race_script(rng, rng.randrange(3, 6), nclients, nscripts), 'flushkind': 'none', 'flushvec': None,
+                          'policy': rng.choice(('random', 'lazy')), 'p': 0.3, 'latency': None, 'txindex': j % 2 == 0, 'prefetch': 100,
+                          'n0': rng.choice((12, 20)), 'colls': 0, 'longpark': rng.choice((0.5, 0.8)), 'reorg_limit': 5})
     return cases
 
 
